@@ -47,6 +47,62 @@ type C15Top struct {
 	B    any
 }
 
+// embedded (anonymous) struct fields, by value and by pointer, at one and two levels: their fields
+// are promoted, a path segment may name them directly (`ID` for `C15Base.ID`).  `S` of C15EmbV
+// shadows the promoted `C15Base.S`.
+type C15Base struct {
+	ID string
+	N  int
+	S  string
+	PL *C15Leaf
+}
+
+type C15EmbV struct {
+	C15Base
+	Name string
+	S    string
+}
+
+type C15EmbP struct {
+	*C15Base
+	Name string
+	A    any
+}
+
+type C15Emb2 struct {
+	C15EmbV
+	X string
+}
+
+type C15Emb2P struct {
+	*C15EmbP
+	X string
+	L C15Leaf
+}
+
+// pointers to maps: a slot of such a type can be mapped as a whole, no path can go through it
+type C15PM struct {
+	S   string
+	M   *map[string]string
+	PPM **map[string]int
+	MPM map[string]*map[string]int
+	PL  *C15Leaf
+}
+
+type C15Wrap struct {
+	S   string
+	E   C15EmbV
+	PE  *C15EmbV
+	EP  C15EmbP
+	E2  C15Emb2
+	E2P *C15Emb2P
+	ME  map[string]C15EmbV
+	MEP map[string]*C15EmbP
+	PM  C15PM
+	PPM *C15PM
+	A   any
+}
+
 type c15J = map[string]any
 
 // c15TypeInfo: one root type of the menu (usable as predecessor output and successor input).
@@ -85,6 +141,8 @@ func c15Reg[T any](name string) {
 		"Str":    func(c *c15Case, vals []reflect.Value) *c15Impl { return c15RunT[string, T](c, vals) },
 		"Top":    func(c *c15Case, vals []reflect.Value) *c15Impl { return c15RunT[C15Top, T](c, vals) },
 		"MapAny": func(c *c15Case, vals []reflect.Value) *c15Impl { return c15RunT[map[string]any, T](c, vals) },
+		"Wrap":   func(c *c15Case, vals []reflect.Value) *c15Impl { return c15RunT[C15Wrap, T](c, vals) },
+		"PEmbP":  func(c *c15Case, vals []reflect.Value) *c15Impl { return c15RunT[*C15EmbP, T](c, vals) },
 	}
 	c15Types[name] = ti
 	c15TypeList = append(c15TypeList, name)
@@ -115,8 +173,128 @@ func init() {
 	c15Reg[any]("Any")
 	c15Reg[string]("Str")
 	c15Reg[int]("Int")
-	for _, rt := range []reflect.Type{reflect.TypeOf(map[string]map[string]string{}), reflect.TypeOf(map[string]*C15Leaf{})} {
+	c15Reg[C15EmbV]("EmbV")
+	c15Reg[*C15EmbV]("PEmbV")
+	c15Reg[C15EmbP]("EmbP")
+	c15Reg[*C15EmbP]("PEmbP")
+	c15Reg[C15Emb2]("Emb2")
+	c15Reg[*C15Emb2P]("PEmb2P")
+	c15Reg[C15Wrap]("Wrap")
+	c15Reg[C15PM]("PM")
+	c15Reg[*C15PM]("PPM")
+	c15Reg[map[string]*map[string]int]("MapPMap")
+	c15Reg[map[string]C15EmbV]("MapEmbV")
+	for _, rt := range []reflect.Type{reflect.TypeOf(map[string]map[string]string{}), reflect.TypeOf(map[string]*C15Leaf{}),
+		reflect.TypeOf(C15Base{}), reflect.TypeOf(&C15Base{}), reflect.TypeOf(C15Emb2P{}), reflect.TypeOf(&C15Emb2{}),
+		reflect.TypeOf(map[string]*C15EmbP{}), reflect.TypeOf(&map[string]string{}), reflect.TypeOf(&map[string]int{})} {
 		c15RegDesc(rt)
+	}
+	c15InitEmb()
+}
+
+// ---------------------------------------------------------------------------------------
+// embedded fields: the table sent with every case, and the Go twin of the model's selector
+// resolution (Model/C15Embed.lean `selT`: a declared field first, then the embedded fields in
+// declaration order, depth-first), checked against reflect for every struct type of the menu
+// ---------------------------------------------------------------------------------------
+
+var c15EmbTable [][]string
+
+func c15StructOf(rt reflect.Type) (reflect.Type, bool) {
+	if rt.Kind() == reflect.Ptr {
+		rt = rt.Elem()
+	}
+	return rt, rt.Kind() == reflect.Struct
+}
+
+// c15ModelSel: the explicit path (field names) the selector s stands for on the struct type st.
+func c15ModelSel(st reflect.Type, s string) []string {
+	for i := 0; i < st.NumField(); i++ {
+		if st.Field(i).Name == s {
+			return []string{s}
+		}
+	}
+	for i := 0; i < st.NumField(); i++ {
+		f := st.Field(i)
+		if !f.Anonymous {
+			continue
+		}
+		if et, ok := c15StructOf(f.Type); ok {
+			if p := c15ModelSel(et, s); p != nil {
+				return append([]string{f.Name}, p...)
+			}
+		}
+	}
+	return nil
+}
+
+func c15InitEmb() {
+	seen := map[reflect.Type]bool{}
+	var walk func(rt reflect.Type)
+	walk = func(rt reflect.Type) {
+		switch rt.Kind() {
+		case reflect.Ptr, reflect.Map:
+			walk(rt.Elem())
+		case reflect.Struct:
+			if seen[rt] {
+				return
+			}
+			seen[rt] = true
+			names := map[string]bool{}
+			var all func(t reflect.Type)
+			all = func(t reflect.Type) {
+				for i := 0; i < t.NumField(); i++ {
+					f := t.Field(i)
+					names[f.Name] = true
+					if f.Anonymous {
+						c15EmbTable = append(c15EmbTable, []string{t.Name(), f.Name})
+						if et, ok := c15StructOf(f.Type); ok {
+							all(et)
+						}
+					}
+				}
+			}
+			all(rt)
+			// the model's depth-first resolution must be Go's (breadth-first, no ambiguity) on this type
+			for n := range names {
+				want := []string(nil)
+				if f, ok := rt.FieldByName(n); ok {
+					t := rt
+					for _, ix := range f.Index {
+						t, _ = c15StructOf(t)
+						want = append(want, t.Field(ix).Name)
+						t = t.Field(ix).Type
+					}
+				}
+				got := c15ModelSel(rt, n)
+				if fmt.Sprint(got) != fmt.Sprint(want) {
+					panic(fmt.Sprintf("c15: selector %s on %v: model resolves %v, reflect %v", n, rt, got, want))
+				}
+			}
+			for i := 0; i < rt.NumField(); i++ {
+				walk(rt.Field(i).Type)
+			}
+		}
+	}
+	for _, n := range c15TypeList {
+		walk(c15Types[n].rt)
+	}
+	for _, rt := range c15ByDesc {
+		walk(rt)
+	}
+	// dedupe, sorted
+	uniq := map[string][]string{}
+	for _, e := range c15EmbTable {
+		uniq[e[0]+"."+e[1]] = e
+	}
+	keys := make([]string, 0, len(uniq))
+	for k := range uniq {
+		keys = append(keys, k)
+	}
+	sort.Strings(keys)
+	c15EmbTable = nil
+	for _, k := range keys {
+		c15EmbTable = append(c15EmbTable, uniq[k])
 	}
 }
 
@@ -306,7 +484,9 @@ type c15PathInfo struct {
 var c15Keys = []string{"k1", "k2", "x"}
 
 // c15TargetPaths: every target path of rt up to the given depth (map keys and keys below `any`
-// holes from a small pool).
+// holes from a small pool).  Struct segments are all legal selectors: declared fields, embedded
+// fields and promoted fields.  Paths THROUGH a pointer to a map are enumerated too (no such path
+// can be walked at run time: compilation has to reject them).
 func c15TargetPaths(rt reflect.Type, depth int, pre []string, via bool, out *[]c15PathInfo) {
 	if len(pre) > 0 {
 		*out = append(*out, c15PathInfo{path: append([]string{}, pre...), ty: rt, via: via})
@@ -327,17 +507,24 @@ func c15TargetPaths(rt reflect.Type, depth int, pre []string, via bool, out *[]c
 		}
 		return
 	case reflect.Ptr:
-		t = t.Elem()
+		for t.Kind() == reflect.Ptr {
+			t = t.Elem()
+		}
+		if t.Kind() == reflect.Map {
+			c15TargetPaths(t.Elem(), depth-1, append(pre, c15Keys[0]), via, out)
+			return
+		}
 	}
 	if t.Kind() == reflect.Struct {
-		for i := 0; i < t.NumField(); i++ {
-			c15TargetPaths(t.Field(i).Type, depth-1, append(pre, t.Field(i).Name), via, out)
+		for _, f := range reflect.VisibleFields(t) {
+			c15TargetPaths(f.Type, depth-1, append(pre, f.Name), via, out)
 		}
 	}
 }
 
 // c15SourcePaths: every source path that resolves on the value v (static type v.Type()),
 // following the dynamic content of interface values; plus the static type of the slot reached.
+// A promoted selector whose embedded pointer is nil is listed (it does not resolve: an error).
 func c15SourcePaths(v reflect.Value, depth int, pre []string, via bool, out *[]c15PathInfo) {
 	if len(pre) > 0 {
 		*out = append(*out, c15PathInfo{path: append([]string{}, pre...), ty: v.Type(), via: via})
@@ -360,14 +547,28 @@ func c15SourcePaths(v reflect.Value, depth int, pre []string, via bool, out *[]c
 		}
 		return
 	case reflect.Ptr:
-		if x.IsNil() {
+		for x.Kind() == reflect.Ptr {
+			if x.IsNil() {
+				return
+			}
+			x = x.Elem()
+		}
+		if x.Kind() == reflect.Map {
+			// through a pointer to a map: cannot be walked, compilation has to reject it
+			for _, k := range x.MapKeys() {
+				*out = append(*out, c15PathInfo{path: append(append([]string{}, pre...), k.String()), ty: x.Type().Elem(), via: via})
+			}
 			return
 		}
-		x = x.Elem()
 	}
 	if x.Kind() == reflect.Struct {
-		for i := 0; i < x.NumField(); i++ {
-			c15SourcePaths(x.Field(i), depth-1, append(pre, x.Type().Field(i).Name), via, out)
+		for _, f := range reflect.VisibleFields(x.Type()) {
+			fv, err := x.FieldByIndexErr(f.Index)
+			if err != nil {
+				*out = append(*out, c15PathInfo{path: append(append([]string{}, pre...), f.Name), ty: f.Type, via: via})
+				continue
+			}
+			c15SourcePaths(fv, depth-1, append(pre, f.Name), via, out)
 		}
 	}
 }
